@@ -21,9 +21,13 @@ type c05path struct {
 	FaultFrom int      `json:"faults_from_event"`
 	Events    []string `json:"events"`
 	Shutdown  bool     `json:"remote_write_interrupted_by_shutdown"`
+	// FailRemLog: the remote node is reachable and answers, but its log refuses the append (disk full)
+	FailRemLog bool `json:"remote_log_fails,omitempty"`
 }
 
-var c05events = []string{"pub0", "pub1", "pub1-repeat", "pub1-repeat-dup", "pub2", "pub2-repeat", "pub2-repeat-dup", "rel-pending", "rel-completed", "rel-unknown", "idle"}
+// rel-namesake: a client of another mount point that uses the same client identifier as the publisher releases the
+// identifier of the publisher's pending handshake
+var c05events = []string{"pub0", "pub1", "pub1-repeat", "pub1-repeat-dup", "pub2", "pub2-repeat", "pub2-repeat-dup", "rel-pending", "rel-completed", "rel-unknown", "idle", "rel-namesake"}
 
 func c05paths() []c05path {
 	var out []c05path
@@ -50,7 +54,7 @@ func c05paths() []c05path {
 			if strings.HasPrefix(e, "pub1-repeat") && !has("pub1") {
 				continue
 			}
-			if (strings.HasPrefix(e, "pub2-repeat") || e == "rel-pending" || e == "rel-completed") && !has("pub2") {
+			if (strings.HasPrefix(e, "pub2-repeat") || e == "rel-pending" || e == "rel-completed" || e == "rel-namesake") && !has("pub2") {
 				continue
 			}
 			if e == "rel-completed" && !has("rel-pending") {
@@ -71,23 +75,31 @@ func c05paths() []c05path {
 		{"both", false, false}, {"both", true, false}, {"both", false, true}, {"both", true, true}}
 	for _, c := range combos {
 		for _, s := range seqs {
-			out = append(out, c05path{c.pl, c.fl, c.fr, 0, s, false})
+			out = append(out, c05path{c.pl, c.fl, c.fr, 0, s, false, false})
 			if vk.Thorough() && (c.fl || c.fr) && len(s) >= 2 {
-				out = append(out, c05path{c.pl, c.fl, c.fr, 1, s, false})
+				out = append(out, c05path{c.pl, c.fl, c.fr, 1, s, false, false})
+			}
+		}
+	}
+	// the remote node answers but its log refuses the append
+	for _, pl := range []string{"remote", "both"} {
+		for _, s := range seqs {
+			if len(s) <= 2 || vk.Thorough() {
+				out = append(out, c05path{Placement: pl, Events: s, FailRemLog: true})
 			}
 		}
 	}
 	// two remote destination nodes (three nodes): every one of them must have the message before the acknowledgement
 	for _, fr := range []bool{false, true} {
 		for _, s := range [][]string{{"pub1"}, {"pub0", "pub1"}, {"pub2", "rel-pending"}, {"pub1", "pub1-repeat-dup"}, {"pub1", "pub2", "rel-pending"}} {
-			out = append(out, c05path{"two-remotes", false, fr, 0, s, false})
-			out = append(out, c05path{"local+two-remotes", false, fr, 0, s, false})
+			out = append(out, c05path{"two-remotes", false, fr, 0, s, false, false})
+			out = append(out, c05path{"local+two-remotes", false, fr, 0, s, false, false})
 		}
 	}
 	// the publishing node is stopped while the remote write of the last event is in flight
 	for _, pl := range []string{"remote", "both"} {
 		for _, s := range [][]string{{"pub1"}, {"pub0", "pub1"}, {"pub2", "rel-pending"}, {"pub1", "pub2", "rel-pending"}} {
-			out = append(out, c05path{pl, false, false, 0, s, true})
+			out = append(out, c05path{pl, false, false, 0, s, true, false})
 		}
 	}
 	return out
@@ -106,7 +118,7 @@ func TestC05StoreBeforeAck(t *testing.T) {
 				w := NewWorld(t, nn)
 				defer w.Close()
 				viol := func(sig, format string, a ...any) {
-					rep.Violate(vk.Violation{Sig: sig, Msg: fmt.Sprintf("subscribers=%s localFail=%v remoteFail=%v from event %d, script %v: ", p.Placement, p.FailLocal, p.FailRem, p.FaultFrom, p.Events) + fmt.Sprintf(format, a...), Replay: p})
+					rep.Violate(vk.Violation{Sig: sig, Msg: fmt.Sprintf("subscribers=%s localFail=%v remoteFail=%v remoteLogFail=%v from event %d, script %v: ", p.Placement, p.FailLocal, p.FailRem, p.FailRemLog, p.FaultFrom, p.Events) + fmt.Sprintf(format, a...), Replay: p})
 				}
 				var dest []uint64
 				if p.Placement == "local" || p.Placement == "both" || p.Placement == "local+two-remotes" {
@@ -139,7 +151,19 @@ func TestC05StoreBeforeAck(t *testing.T) {
 					return
 				}
 				w.Step()
+				// same client identifier as the publisher, other mount point: a different client altogether
+				twin := w.NewClient("namesake", 1, AckNone)
+				if twin.Connect(ConnectOpts{ClientID: "pub", KeepAlive: 600, User: "mp:elsewhere"}) != 0 {
+					rep.HarnessError("connect failed")
+					return
+				}
+				w.Step()
+				if pub.BrokerClosed() {
+					viol("c05-namesake-displaced-publisher", "a client of another mount point connecting with the same client identifier ended the publisher's session")
+					return
+				}
 				setFaults := func(on bool) {
+					w.FailLog(2, on && p.FailRemLog)
 					w.FailLog(1, on && p.FailLocal)
 					w.SetUnreachable(1, 2, on && p.FailRem)
 				}
@@ -192,7 +216,7 @@ func TestC05StoreBeforeAck(t *testing.T) {
 					sessionAlive := w.Node(1).Local.Get(pub.SessionID) != nil
 					switch {
 					case ev == "pub0":
-						e := &pubEv{qos: 0, payload: fmt.Sprintf("m%d", k), faulty: faultsOn && len(dest) > 0 && ((p.FailLocal && has(dest, 1)) || (p.FailRem && has(dest, 2)))}
+						e := &pubEv{qos: 0, payload: fmt.Sprintf("m%d", k), faulty: faultsOn && len(dest) > 0 && ((p.FailLocal && has(dest, 1)) || ((p.FailRem || p.FailRemLog) && has(dest, 2)))}
 						pub.Publish("t/x", e.payload, 0, false, 0)
 						expectForward, fwdPayload = true, e.payload
 					case strings.HasPrefix(ev, "pub1"):
@@ -206,7 +230,7 @@ func TestC05StoreBeforeAck(t *testing.T) {
 							nextID++
 							e.id = nextID
 						}
-						e.faulty = (faultsOn && ((p.FailLocal && has(dest, 1)) || (p.FailRem && has(dest, 2)))) || shutdownFaulty(k)
+						e.faulty = (faultsOn && ((p.FailLocal && has(dest, 1)) || ((p.FailRem || p.FailRemLog) && has(dest, 2)))) || shutdownFaulty(k)
 						e.seqSent = w.Seq()
 						pub.Send(&packet.Publish{Header: &packet.Header{Qos: 1, Dup: strings.HasSuffix(ev, "dup")}, Topic: []byte("t/x"), Payload: []byte(e.payload), MessageId: e.id})
 						pubs = append(pubs, e)
@@ -250,7 +274,7 @@ func TestC05StoreBeforeAck(t *testing.T) {
 						if h == nil {
 							return // infeasible here: no handshake is pending
 						}
-						h.ev.faulty = (faultsOn && ((p.FailLocal && has(dest, 1)) || (p.FailRem && has(dest, 2)))) || shutdownFaulty(k)
+						h.ev.faulty = (faultsOn && ((p.FailLocal && has(dest, 1)) || ((p.FailRem || p.FailRemLog) && has(dest, 2)))) || shutdownFaulty(k)
 						pub.Send(&packet.PubRel{Header: &packet.Header{}, MessageId: h.ev.id})
 						h.pending = false
 						h.completed = !h.ev.faulty // a failed forward completes nothing: the client may start over
@@ -267,6 +291,13 @@ func TestC05StoreBeforeAck(t *testing.T) {
 							}
 						}
 						pub.Send(&packet.PubRel{Header: &packet.Header{}, MessageId: h.ev.id})
+					case ev == "rel-namesake":
+						h := findHS(true, false)
+						if h == nil {
+							return
+						}
+						twin.Send(&packet.PubRel{Header: &packet.Header{}, MessageId: h.ev.id})
+						rep.Extra["paths_with_release_by_namesake"] = asInt(rep.Extra["paths_with_release_by_namesake"]) + 1
 					case ev == "rel-unknown":
 						pub.Send(&packet.PubRel{Header: &packet.Header{}, MessageId: 999})
 					case ev == "idle":
